@@ -265,6 +265,10 @@ static std::string str_from(const std::string &route, const Mode &md, const std:
         s = in.data();
         return strinfo(s);
     }
+    // operator+ / operator+= with a C string operand: the configured default mode
+    if (route == "plus") { Block<T> in = units<T>(u, 1); return strinfo(ST::string() + in.data()); }
+    if (route == "rplus") { Block<T> in = units<T>(u, 1); return strinfo(in.data() + ST::string()); }
+    if (route == "pluseq") { Block<T> in = units<T>(u, 1); ST::string s; s += in.data(); return strinfo(s); }
     if (route == "lit") {           // literal operator called as a function; hard-wired assume_valid
         Block<T> in = units<T>(u);
         return strinfo(ST::literals::operator"" _st(in.data(), in.size()));
@@ -313,6 +317,18 @@ static std::string str_from_u8(const std::string &route, const Mode &md, const s
         std::u8string x(in.data(), in.size());
         ST::string s(PREVIOUS);
         s = x;
+        return strinfo(s);
+    }
+    // ---- the source text lies INSIDE the destination string's own storage (a proper sub-range of it): the
+    //      destination must not be released or overwritten before the source has been read
+    if (route == "aliasset" || route == "aliasview" || route == "aliasu8" || route == "aliasasg") {
+        Block<char> in = units<char>(u);
+        std::string own = "xyz" + std::string(in.data() ? in.data() : "", in.size()) + (route == "aliasasg" ? "" : "..");
+        ST::string s = ST::string::from_validated(own.data(), own.size());
+        if (route == "aliasset") { if (md.dflt) s.set(s.c_str() + 3, in.size()); else s.set(s.c_str() + 3, in.size(), md.m); }
+        else if (route == "aliasview") { if (md.dflt) s.set(s.view(3, in.size())); else s.set(s.view(3, in.size()), md.m); }
+        else if (route == "aliasu8") { if (md.dflt) s.set(s.u8_str() + 3, in.size()); else s.set(s.u8_str() + 3, in.size(), md.m); }
+        else s = s.c_str() + 3;
         return strinfo(s);
     }
     if (route == "setmove") {       // set(char_buffer &&, mode)
